@@ -524,6 +524,17 @@ def main(tier):
                               + (f'; sentence: {s.text}' if s else ''),
                               {'cnl': sp.text(), 'program': r['program'], 'sentence': s.text if s else None, **r['diff']})
     lean_reading_check(run, [(sp.ast(), r.get('probes'), sp.text()) for sp, r in zip(specs, results) if 'probes' in r])
+    # the side condition of C01_decide / C06_core_safe (range restriction) is evaluated by the driver on every generated specification
+    safe = common.run_model([('c01.safe', {'spec': sp.ast()}) for sp in specs])
+    nsafe = 0
+    for sp, a in zip(specs, safe):
+        if a and a.get('safe'):
+            nsafe += 1
+        elif not any(classify(sp, x).endswith('same-relation-positive-and-negated') for x in sp.sentences if x.kind != 'facts'):
+            run.broke('corr', 'a generated specification is not range-restricted (generator error: the proved procedures do not apply to it)',
+                      {'cnl': sp.text(), 'answer': a})
+            break
+    run.coverage['range_restricted_specifications'] = nsafe
     run.coverage['specifications'] = stats
     run.coverage['sentence_kinds'] = kinds
     for sp in specs[:3]:
